@@ -1,6 +1,8 @@
 CONSTANTS Threads <- T4
           Programs <- ProgWake
           NotifyUnderLock = TRUE
+          Delegates <- NoD
+          CursorBeforeWake = FALSE
           SpuriousWakeups = FALSE
 SPECIFICATION FairSpec
 INVARIANTS NoTouchAfterDestroy LockInv NoSpuriousReturn QueueInv QueueWellFormed PerProducerOrder
